@@ -2,7 +2,7 @@
    link_arguments calls), one input, and what the real jsonargparse did: which link calls raised ValueError,
    required_args, the configuration at the entry of apply_parsing_links, the parse result, the dump (loaded back),
    and the result of re-parsing the dump. *)
-From JV Require Import Lib.Base Lib.C15Val Model.C15Links Spec.C15Spec.
+From JV Require Import Lib.Base Lib.C15Val Model.C15Links Model.C15Tree Spec.C15Spec.
 
 (* the compute functions written into the generated module (tie/impl/c15_links.py: FUNCTIONS) *)
 Definition all_ints (l : list val) : option (list Z) := mapM (fun v => match v with VInt z => Some z | _ => None end) l.
@@ -27,6 +27,16 @@ Definition fn_interp (f : nat) (args : list val) : option val :=
 
 Inductive pres := POk (c : val) | PLinked | PRejected | PCrash.
 
+(* one level of subcommands: the chosen subcommand, the declarations / link_arguments calls of its parser, its part of
+   argv, and what was observed when that parser was built *)
+Record subcase := {
+  sb_name : str;
+  sb_decls : list decl;
+  sb_links : list link;
+  sb_argv : list item;
+  sb_build : list N;
+  sb_required : list key }.
+
 Record case := {
   c_classes : list cls;
   c_decls : list decl;
@@ -37,6 +47,7 @@ Record case := {
   c_fixed : N;               (* which repairs the implementation under test carries (tie/props/c15.py FIXES_APPLIED):
                                 bit 0 = fixes/C15-link-key-prefix-overlap.patch (model: build_fixed),
                                 bit 1 = fixes/C15-list-item-target-in-dump.patch (model: strip_fixed) *)
+  c_sub : option subcase;    (* Some: the declarations/links/input above belong to the TOP parser of a parser tree *)
   o_build : list N;
   o_required : list key;
   o_pre : option val;
@@ -69,7 +80,7 @@ Definition options_of (x : input) : list key :=
   | InObject _ _ => []
   end.
 
-Definition judge1 (c : case) : verdict :=
+Definition judge_flat (c : case) : verdict :=
   let '(p, verdicts) := if N.testbit (c_fixed c) 0 then build_fixed (c_decls c) (c_links c)
                          else build (c_decls c) (c_links c) in
   let strip := if N.testbit (c_fixed c) 1 then strip_fixed else strip in
@@ -131,5 +142,79 @@ Definition judge1 (c : case) : verdict :=
   else {| v_model := m_build && m_parse && m_dump;
           v_class := 2;
           v_spec := s_lists |}.
+
+(* ---------------------------------------------------------------- parser trees (one level of subcommands)
+   The collection phase is not modelled for trees: the configuration the top-level apply_parsing_links receives is an
+   input of the model, as for parsers with class-typed arguments. Everything is observed through the TOP parser:
+   parse, dump, re-parse of the dump. The spec sees one flat link list: the top parser's accepted links and the
+   subcommand's accepted links with the subcommand name prefixed to their keys. *)
+Definition prefix_link (n : str) (l : link) : link :=
+  {| l_src := map (cons n) (l_src l); l_tgt := n :: l_tgt l; l_fn := l_fn l |}.
+
+Definition linked_option (p : parser) (argv : list item) : bool :=
+  existsb (fun it => match it with
+                     | Opt k _ => match find_act (p_acts p) k with Some (_, true) => true | _ => false end
+                     | Cfg _ => false
+                     end) argv.
+
+Definition judge_tree (c : case) (sb : subcase) : verdict :=
+  let fixed_build := N.testbit (c_fixed c) 0 in
+  let '(p, verdicts) := if fixed_build then build_fixed (c_decls c) (c_links c) else build (c_decls c) (c_links c) in
+  let '(q, sverdicts) := if fixed_build then build_fixed (sb_decls sb) (sb_links sb) else build (sb_decls sb) (sb_links sb) in
+  let strip1 := if N.testbit (c_fixed c) 1 then strip_fixed else strip in
+  let n := sb_name sb in
+  let x := c_input c in
+  let top_argv := match x with InArgs _ a => a | InObject _ _ => [] end in
+  let acc_top := select (c_links c) (o_build c) in
+  let acc_sub := map (prefix_link n) (select (sb_links sb) (sb_build sb)) in
+  let accepted := acc_top ++ acc_sub in
+  let sl := map (fun l => {| s_src := l_src l; s_tgt := l_tgt l; s_fn := l_fn l |}) accepted in
+  let ckeys := map d_key (filter (fun d => is_class_kind (d_kind d)) (c_decls c))
+               ++ map (fun d => n :: d_key d) (filter (fun d => is_class_kind (d_kind d)) (sb_decls sb)) in
+  let required := o_required c ++ map (cons n) (sb_required sb) in
+  let options := options_of x ++ map (cons n) (flat_map (fun it => match it with Opt k _ => [k] | Cfg _ => [] end) (sb_argv sb)) in
+  let model_parse :=
+    if linked_option p top_argv || linked_option q (sb_argv sb) then Err ELinked
+    else match o_pre c with
+         | Some pre => finish_tree fn_interp (c_classes c) p q n pre
+         | None => Err EOther                      (* rejected while collecting: not modelled for trees *)
+         end in
+  let m_build := list_eqb N.eqb verdicts (o_build c) && same_keys (p_req p) (o_required c)
+                 && list_eqb N.eqb sverdicts (sb_build sb) && same_keys (p_req q) (sb_required sb) in
+  let m_parse := res_agrees model_parse (o_parse c) in
+  let m_dump := match o_parse c, o_dump c with
+                | POk cfg, Some d => val_eqb (strip_tree strip1 p q n cfg) d
+                | POk _, None => false
+                | _, _ => true
+                end in
+  let s_core :=
+    not_required sl required
+    && match o_parse c with
+       | POk cfg =>
+           negb (uses_target_option ckeys sl options)
+           && invariant fn_interp ckeys sl cfg
+           && match o_dump c with Some d => dump_clean ckeys false sl cfg d | None => false end
+           && match o_reparse c with
+              | Some (POk c2) => invariant fn_interp ckeys sl c2 && reparse_same ckeys sl cfg c2
+              | _ => false
+              end
+       | PLinked | PRejected => true
+       | PCrash => false
+       end in
+  {| v_model := m_build && m_parse && m_dump;
+     v_class := if negb (overlap_free (select (c_links c) (o_build c)) && overlap_free (select (sb_links sb) (sb_build sb))) then 1
+                else match o_parse c with
+                     | POk cfg => if skipped_target_present (p_links p) cfg
+                                     || match get cfg [n] with Some s => skipped_target_present (p_links q) s | None => false end
+                                  then 3 else 0
+                     | _ => 0
+                     end;
+     v_spec := s_core |}.
+
+Definition judge1 (c : case) : verdict :=
+  match c_sub c with
+  | None => judge_flat c
+  | Some sb => judge_tree c sb
+  end.
 
 Definition judge (cs : list case) := judge_all judge1 cs.
